@@ -58,7 +58,13 @@ const termChars = "!%^&*+=~?|" // a command's last byte is taken from here and o
 var escFamily = []string{
 	"\x1b[0m", "\x1b[1m", "\x1b[1;31m", "\x1b[32;40m", "\x1b[K", "\x1b[2K", "\x1b[J", "\x1b[2J", "\x1b[10;20H",
 	"\x1b[?25l", "\x1b[?25h", "\x1b[3A", "\x1b[12C", "\x1b(B", "\x1b=", "\x1b>", "\x1b[m", "\x1b[H",
+	// window-title sequences (OSC 0/2, BEL-terminated, alphanumeric title)
+	"\x1b]0;one\x07", "\x1b]2;r1cfg42\x07", "\x1b]0;\x07",
 }
+
+// progressLines are whole output lines made of host-name characters followed by a character that is
+// NOT a prompt terminator: they must come back as output.
+var progressLines = []string{"50%", "100%", "cpu:7%", "r1%", "load.avg:0.93%", "(standby)/0%", "done~", "eth0:up!", "10.0.0.1/24*"}
 
 var promptRe = regexp.MustCompile(`(?im)^[a-z\d.\-@()/:]{1,48}[#>$]\s*$`)
 
@@ -131,10 +137,13 @@ func genOutput(r *rand.Rand, nl, prompt string, big bool) (toks []devsim.Token, 
 				ll = 80 + r.Intn(200)
 			}
 			line := randStr(r, outAlpha, ll)
+			if prompt != "" && r.Intn(12) == 0 {
+				line = progressLines[r.Intn(len(progressLines))]
+			}
 			if r.Intn(6) == 0 {
 				line += strings.Repeat(" ", 1+r.Intn(4))
 			}
-			if r.Intn(10) == 0 {
+			if r.Intn(10) == 0 && !strings.HasSuffix(line, "%") {
 				line = "  " + line
 			}
 			if r.Intn(12) == 0 {
